@@ -31,3 +31,9 @@ Theorem C03_reported_types_refuted :
   s_eval (EBin BShl (ELit KUntypedRune (CInt 97)) (ELit KUntypedInt (CInt 1))) = SOk KUntypedRune (Some (CInt 194)).
 Proof. vm_compute. repeat split. Qed.
 Print Assumptions C03_reported_types_refuted.
+
+(* ---- non-vacuity: a nested untyped integer expression in the domain of theorem 1 ---- *)
+Example ex_int_expr :
+  let e := EBin BMul (EBin BAdd (ELit KUntypedInt (CInt 3)) (EUn UNeg (ELit KUntypedInt (CInt 4)))) (ELit KUntypedInt (CInt 18446744073709551616)) in
+  int_expr e = true /\ exists c, m_eval e = Ok KUntypedInt c.
+Proof. vm_compute. split; [reflexivity|eexists; reflexivity]. Qed.
